@@ -7,4 +7,5 @@ CONSTANTS
   Part = "opt"
   Dims = {"features", "rf", "dilation", "dc"}
   HOpts = {"temp", "hard", "gumbel", "disable"}
+  Forking = FALSE
 INVARIANT AlwaysHomogeneous
